@@ -15,6 +15,20 @@ static int g_fail_alloc = -1;
 static int g_alloc_count;
 static uint32_t g_exit_code;
 static int g_freed_env;
+static int g_fail_api = -1, g_fail_nth = -1;
+static uint32_t g_fail_error;
+static int g_api_calls[8];
+static int g_attr_live, g_handles_closed;
+
+static int api_fails(int api)
+{
+  int n = g_api_calls[api]++;
+  if (api == g_fail_api && n == g_fail_nth) {
+    g_last_error = g_fail_error;
+    return 1;
+  }
+  return 0;
+}
 
 enum { MAXLIVE = 128, MAXFREED = 128 };
 static struct {
@@ -103,6 +117,9 @@ void ws_reset(void)
   g_alloc_count = 0;
   g_last_error = 0;
   g_freed_env = 0;
+  g_fail_api = g_fail_nth = -1;
+  memset(g_api_calls, 0, sizeof(g_api_calls));
+  g_attr_live = g_handles_closed = 0;
   for (size_t i = 0; i < g_nfreed; i++) {
     free(g_freed[i].copy);
   }
@@ -124,6 +141,12 @@ void ws_set_parent_env(const wchar_t *block, size_t units)
 }
 
 void ws_fail_alloc(int n) { g_fail_alloc = n; }
+void ws_fail_api(int api, int nth, uint32_t error)
+{
+  g_fail_api = api;
+  g_fail_nth = nth;
+  g_fail_error = error;
+}
 void ws_set_exit_code(uint32_t code) { g_exit_code = code; }
 
 struct ws_capture ws_get(void)
@@ -138,6 +161,8 @@ struct ws_capture ws_get(void)
     live += g_live[i].p != NULL;
   }
   g_cap.live_allocs = live;
+  g_cap.attr_lists_live = g_attr_live;
+  g_cap.handles_closed = g_handles_closed;
   return g_cap;
 }
 
@@ -149,7 +174,7 @@ BOOL SetHandleInformation(HANDLE h, DWORD mask, DWORD flags)
   (void) h;
   (void) mask;
   (void) flags;
-  return 1;
+  return api_fails(0) ? 0 : 1;
 }
 
 struct ws_attr_list {
@@ -165,7 +190,11 @@ BOOL InitializeProcThreadAttributeList(LPPROC_THREAD_ATTRIBUTE_LIST l, DWORD n, 
     SetLastError(ERROR_INSUFFICIENT_BUFFER);
     return 0;
   }
+  if (api_fails(1)) {
+    return 0;
+  }
   l->initialized = 1;
+  g_attr_live++;
   return 1;
 }
 
@@ -178,10 +207,16 @@ BOOL UpdateProcThreadAttribute(LPPROC_THREAD_ATTRIBUTE_LIST l, DWORD flags, uint
   (void) size;
   (void) prev;
   (void) ret;
-  return 1;
+  return api_fails(2) ? 0 : 1;
 }
 
-void DeleteProcThreadAttributeList(LPPROC_THREAD_ATTRIBUTE_LIST l) { (void) l; }
+void DeleteProcThreadAttributeList(LPPROC_THREAD_ATTRIBUTE_LIST l)
+{
+  if (l != NULL && l->initialized) {
+    l->initialized = 0;
+    g_attr_live--;
+  }
+}
 
 wchar_t *GetEnvironmentStringsW(void)
 {
@@ -211,6 +246,9 @@ BOOL CreateProcessW(LPCWSTR app, LPWSTR cmdline, SECURITY_ATTRIBUTES *pa, SECURI
   (void) ta;
   (void) inherit;
   (void) si;
+  if (api_fails(3)) {
+    return 0;
+  }
   g_cap.created++;
   g_cap.flags = flags;
   size_t n = wcslen(cmdline) + 1;
@@ -261,12 +299,15 @@ DWORD WaitForSingleObject(HANDLE h, DWORD ms)
 {
   (void) h;
   (void) ms;
-  return 0;
+  return api_fails(5) ? WAIT_FAILED : 0;
 }
 
 BOOL GetExitCodeProcess(HANDLE h, DWORD *status)
 {
   (void) h;
+  if (api_fails(6)) {
+    return 0;
+  }
   *status = g_exit_code;
   return 1;
 }
@@ -288,6 +329,7 @@ BOOL TerminateProcess(HANDLE h, UINT code)
 BOOL CloseHandle(HANDLE h)
 {
   (void) h;
+  g_handles_closed++;
   return 1;
 }
 
@@ -299,6 +341,9 @@ int MultiByteToWideChar(UINT cp, DWORD flags, LPCCH src, int srclen, LPWSTR dst,
 {
   (void) cp;
   (void) flags;
+  if (api_fails(4)) {
+    return 0;
+  }
   size_t n = srclen < 0 ? strlen(src) + 1 : (size_t) srclen;
   if (n == 0) {
     SetLastError(ERROR_INVALID_PARAMETER);
